@@ -23,10 +23,11 @@ kw.native_witnesses = ["c01_wit_single_via_routes_are_walks", "c03_wit_ksp_route
 sv = VerusUnit("c13_single_via", "c13_single_via", rlimit=60, paired_kani=(kw, []))
 yr = VerusUnit("c13_yen_run", "c13_yen_run", rlimit=60, paired_kani=(kw, []))
 sp = VerusUnit("c02_speed", "c02_speed", rlimit=30)
-UNITS = [heading, turn, sm, cm, sv, yr, sp, smw, kw]
+ro = VerusUnit("c03_route_output", "c03_route_output", rlimit=30)
+UNITS = [heading, turn, sm, cm, sv, yr, sp, ro, smw, kw]
 EXPLANATION = ("turn classification kernels (complete over i16); StateModel get/set/add under contract (frame + `add` grows the slot by the increment converted to the feature's unit) and the accumulation lemma; "
                "per-edge state/cost split (EdgeTraversal::forward/reverse_traversal, Verus, see C07 units); the speed-table traversal model (unit c02_speed): an edge adds its length (converted) to the distance slot "
                "and length / its own table speed to the time slot, nothing else changes; the reverse half of a bidirectional route is re-traversed edge by edge in travel order, each edge after its TRUE predecessor "
-               "and from the state that predecessor left (reorient_reverse_route, unit c13_single_via); every route of Yen's driver is `chained`: from its second edge on, each edge is the traversal of that edge after the edge actually before it, from the state that edge left (unit c13_yen_run; failed on the pinned code, fixed)")
-NOT_DECIDED = "the response summary produced through serde_json in the output plugin; the energy traversal models' speed reconstruction; turn-delay engine lookup tables"
+               "and from the state that predecessor left (reorient_reverse_route, unit c13_single_via); every route of Yen's driver is `chained`: from its second edge on, each edge is the traversal of that edge after the edge actually before it, from the state that edge left (unit c13_yen_run; failed on the pinned code, fixed); the route summary (unit c03_route_output, verbatim construct_route_output): the `traversal_summary` of a route in the response is the serialisation of the state AFTER THE LAST EDGE of that very route under the instance's own state model, the path block is generated from the same route, and an empty route is an error, never a summary of something else")
+NOT_DECIDED = "StateModel::serialize_state itself (serde_json; a deterministic serialisation) and the placement of the route object in the response (slice patterns over serde_json values); the energy traversal models' speed reconstruction; turn-delay engine lookup tables"
 ASSUMPTIONS = ["alloc::fmt::format stubbed on error paths"]
